@@ -304,6 +304,29 @@ func (w *world) probeHTTP(hist string) {
 				w.x.Failf(fmt.Sprintf("http websocket-upgrade want=%v", want), "history [%s]: websocket upgrade on /streams%s with token %s (user %q) answered %d", hist, p, t.name, user, rec.Code)
 			}
 		}
+		// a client-supplied copy of the server's internal user header must not change the decision
+		for _, forged := range []string{"admin", "v"} {
+			for _, target := range []string{"/api/v1/users", "/streams/b.flv"} {
+				url := target
+				if t.val != "" {
+					url += "?token=" + t.val
+				}
+				req := httptest.NewRequest("GET", url, nil)
+				req.Header.Set("user_name_in_token", forged)
+				rec := httptest.NewRecorder()
+				w.h.ServeHTTP(rec, req)
+				passed := rec.Code != 401 && rec.Code != 403
+				want := false
+				if target == "/api/v1/users" {
+					want = user != "" && m.users[user] != nil && m.users[user].exists && m.users[user].admin
+				} else {
+					want = user != "" && m.may(user, false, "/b")
+				}
+				if passed != want {
+					w.x.Failf(fmt.Sprintf("http forged-user-header want=%v", want), "history [%s]: GET %s with token %s (user %q) and a client-supplied header user_name_in_token: %s answered %d", hist, target, t.name, user, forged, rec.Code)
+				}
+			}
+		}
 		// management API
 		isAdmin := user != "" && m.users[user] != nil && m.users[user].exists && m.users[user].admin
 		for _, a := range []struct{ method, url, body string; adminOnly bool }{
